@@ -12,10 +12,10 @@ import (
 func init() {
 	evid.Tests(
 		evid.Spec{Name: "TestGrepEveryPair", Kind: "plain", QuickShards: 4, ThoroughShards: 6},
-		evid.Spec{Name: "TestGrepSubsets", Kind: "rapid", Quick: 320, Thorough: 16000, QuickShards: 4, ThoroughShards: 8},
-		evid.Spec{Name: "TestGrepPaired", Kind: "rapid", Quick: 200, Thorough: 10000, QuickShards: 4, ThoroughShards: 6},
-		evid.Spec{Name: "TestDistribute", Kind: "rapid", Quick: 160, Thorough: 5000, QuickShards: 2, ThoroughShards: 3},
-		evid.Spec{Name: "TestUnidentified", Kind: "rapid", Quick: 100, Thorough: 3000, QuickShards: 2, ThoroughShards: 3},
+		evid.Spec{Name: "TestGrepSubsets", Kind: "rapid", Quick: 640, Thorough: 16000, QuickShards: 8, ThoroughShards: 8},
+		evid.Spec{Name: "TestGrepPaired", Kind: "rapid", Quick: 400, Thorough: 10000, QuickShards: 8, ThoroughShards: 6},
+		evid.Spec{Name: "TestDistribute", Kind: "rapid", Quick: 320, Thorough: 5000, QuickShards: 4, ThoroughShards: 3},
+		evid.Spec{Name: "TestUnidentified", Kind: "rapid", Quick: 200, Thorough: 3000, QuickShards: 4, ThoroughShards: 3},
 	)
 	evid.Commands("obigrep", "obidistribute", "obimultiplex")
 	ruleParts["grep"] = "Every case is one run of the real command (built from the tree under test) on generated files. " +
